@@ -4,6 +4,7 @@ import (
 	"bufio"
 	"bytes"
 	"fmt"
+	"os"
 	"go/ast"
 	"go/token"
 	"go/types"
@@ -531,4 +532,112 @@ func (p *Program) usedAsValue(fi *FuncInfo) bool {
 		})
 	}
 	return used
+}
+
+// ---------------------------------------------------------------------------
+// Discharge by constant replay.
+//
+// A function whose loops run a constant number of times over fixed-size data (a 16-byte UUID formatted into a
+// 36-byte buffer with a running output position) has indexes that are constants in every iteration although no
+// difference bound relates them to the loop counter. The term interpreter unrolls such loops; when it gets through
+// the whole function without meeting anything it cannot interpret, every evaluation of an index expression it saw
+// is exact, and an index that was a constant below the constant length of its array / buffer on every evaluation is
+// in range. Sites that were never evaluated, or once with a symbolic index or length, are not discharged.
+
+type replayVisit struct {
+	n, bad int
+}
+
+func (p *Program) replayIndexes(fi *FuncInfo) map[*ast.IndexExpr]*replayVisit {
+	if p.replayCache == nil {
+		p.replayCache = map[*FuncInfo]map[*ast.IndexExpr]*replayVisit{}
+	}
+	if v, ok := p.replayCache[fi]; ok {
+		return v
+	}
+	p.replayCache[fi] = nil
+	if fi.Decl.Body == nil {
+		return nil
+	}
+	info := fi.Pkg.TypesInfo
+	se := newSymEval(p)
+	se.errNil = true
+	visits := map[*ast.IndexExpr]*replayVisit{}
+	se.onIndex = func(ix *ast.IndexExpr, idx sval, n int) {
+		v := visits[ix]
+		if v == nil {
+			v = &replayVisit{}
+			visits[ix] = v
+		}
+		v.n++
+		if idx.kind != 'i' || !idx.t.isConst() || n < 0 || int64(idx.t.k) < 0 || int64(idx.t.k) >= int64(n) {
+			v.bad++
+		}
+	}
+	symbolic := func(name string, t types.Type) sval {
+		if _, _, isInt := se.width(t); isInt {
+			return sval{kind: 'i', t: tSym(name), typ: t}
+		}
+		if at, ok := t.Underlying().(*types.Array); ok && at.Len() <= 256 {
+			if _, _, isInt := se.width(at.Elem()); isInt {
+				a := &arrVal{elemT: at.Elem()}
+				for i := int64(0); i < at.Len(); i++ {
+					a.elems = append(a.elems, sval{kind: 'i', t: tSym(fmt.Sprintf("%s[%d]", name, i)), typ: at.Elem()})
+				}
+				return sval{kind: 'a', arr: a, typ: t}
+			}
+		}
+		if _, ok := t.Underlying().(*types.Slice); ok {
+			return sval{kind: 's', base: name, off: tConst(0), slen: tSym("len:" + name), typ: t}
+		}
+		return sval{kind: 'u'}
+	}
+	if fi.Decl.Recv != nil && len(fi.Decl.Recv.List) == 1 && len(fi.Decl.Recv.List[0].Names) == 1 {
+		if obj := info.Defs[fi.Decl.Recv.List[0].Names[0]]; obj != nil {
+			se.env[obj] = symbolic(obj.Name(), obj.Type())
+		}
+	}
+	var args []sval
+	if fi.Decl.Type.Params != nil {
+		for _, pf := range fi.Decl.Type.Params.List {
+			for _, pn := range pf.Names {
+				if obj := info.Defs[pn]; obj != nil {
+					args = append(args, symbolic(obj.Name(), obj.Type()))
+				} else {
+					args = append(args, sval{kind: 'u'})
+				}
+			}
+		}
+	}
+	func() {
+		defer func() {
+			if x := recover(); x != nil {
+				se.unsup = append(se.unsup, fmt.Sprint("panic: ", x))
+			}
+		}()
+		se.evalFunc(fi, args)
+	}()
+	if os.Getenv("DBGREPLAY") != "" {
+		fmt.Println("DBGREPLAY", fi.Name, "unsup:", se.unsup, "sites:", len(visits))
+	}
+	if len(se.unsup) > 0 {
+		return nil
+	}
+	p.replayCache[fi] = visits
+	return visits
+}
+
+func dischargeByReplay(p *Program, ob BoundsOb) (bool, string) {
+	ix, ok := ob.Node.(*ast.IndexExpr)
+	if !ok {
+		return false, ""
+	}
+	if _, inLit := p.enclosingFuncNode(ob.Node).(*ast.FuncLit); inLit {
+		return false, ""
+	}
+	v := p.replayIndexes(ob.Fn)[ix]
+	if v == nil || v.n == 0 || v.bad > 0 {
+		return false, ""
+	}
+	return true, fmt.Sprintf("constant replay of %s: the index is a constant below the constant length on each of its %d evaluations", ob.Fn.Name, v.n)
 }
